@@ -639,6 +639,12 @@ def _erase_facet(v, facet, rng) -> None:
 
 
 ITEM_KINDS = ("identity","dup", "constant", "unused", "optout", "dupinit", "inout", "disorder", "fncall", "callfn", "uncall", "consthint")
+# documentation items: ONE doc_string / metadata_props entry on ONE carrier object of a graph. They are not in
+# ITEM_KINDS (drawn for every pass); they are drawn for the passes they are relevant to and by the carrier sweep.
+DOC_KINDS = ("doc", "meta")
+# what can carry documentation, seen from a graph g: g itself (the Function, when g is a function body), a
+# node of g, a value of g (input / initializer / node output), and - from the main graph only - the model
+CARRIERS = ("graph", "node", "value", "model")
 # the kind of planted pattern each pass is about (used when ONE item is planted at the pass's fixpoint)
 RELEVANT_ITEMS = {
     "IdentityEliminationPass": ("identity",),
@@ -652,14 +658,46 @@ RELEVANT_ITEMS = {
     "RemoveInitializersFromInputsPass": ("dupinit", "consthint"),
     "LiftSubgraphInitializersToMainGraphPass": ("dupinit", "consthint"),
     "TopologicalSortPass": ("disorder",),
+    "ClearMetadataAndDocStringPass": DOC_KINDS,
     "InlinePass": ("fncall", "fncall", "callfn", "uncall"),
     "RemoveUnusedFunctionsPass": ("fncall", "fncall", "callfn", "uncall"),
     "RemoveUnusedOpsetsPass": ("fncall", "callfn", "uncall"),
 }
 
 
-def plant_item(model, g, vis, gen: gen_ir.IRGen, kind: str, planted: list) -> None:
-    """One pattern of the given kind appended to graph g (vis = values of g itself; extended)."""
+def carriers_of(model, g, vis) -> list:
+    """the carriers of documentation that graph g offers"""
+    return ["graph"] + (["node"] if len(g) else []) + (["value"] if vis else []) + (["model"] if g is model.graph else [])
+
+
+def plant_doc(model, g, vis, rng, kind: str, carrier: str) -> None:
+    """ONE doc_string ('doc') or 1-2 metadata_props entries ('meta') on one carrier of g; nothing else changes"""
+    if carrier == "model":
+        obj = model
+    elif carrier == "graph":
+        obj = next((f for f in model.functions.values() if f.graph is g), g)
+    elif carrier == "node":
+        obj = rng.choice(list(g))
+    else:
+        obj = rng.choice(vis)
+    if kind == "doc":
+        obj.doc_string = rng.choice(["vf: documentation", "d"])
+    else:
+        for k in ["vf_key", "vf_other"][: rng.choice([1, 1, 2])]:
+            obj.metadata_props[k] = rng.choice(["vf", ""])
+
+
+def plant_item(model, g, vis, gen: gen_ir.IRGen, kind: str, planted: list, carrier: str | None = None):
+    """One pattern of the given kind appended to graph g (vis = values of g itself; extended).
+    For the documentation kinds the carrier that was used is returned (None otherwise)."""
+    if kind in DOC_KINDS:
+        offered = carriers_of(model, g, vis)
+        if carrier is None or carrier not in offered:
+            # the graph object itself half of the time: that is the carrier the scope classes differ in
+            carrier = "graph" if gen.rng.random() < 0.5 else gen.rng.choice(offered)
+        plant_doc(model, g, vis, gen.rng, kind, carrier)
+        gen.features.add("bait:documentation_item")
+        return carrier
     rng = gen.rng
     main = model.graph
     is_fn = any(f.graph is g for f in model.functions.values())
